@@ -164,9 +164,9 @@ func c06Semantics(res *engine.Result, pre string, d psi.PmtDescriptor, want ref.
 
 // c06Want is the expectation for one logical section, computed once.
 type c06Want struct {
-	sec *ref.PMTSection
-	obs [][]string // per stream, per descriptor: observation of a descriptor built directly from (tag, body)
-	obsOnly bool // compare descriptor bodies through the observation strings only (no field semantics)
+	sec     *ref.PMTSection
+	obs     [][]string // per stream, per descriptor: observation of a descriptor built directly from (tag, body)
+	obsOnly bool       // compare descriptor bodies through the observation strings only (no field semantics)
 }
 
 func c06MakeWant(sec *ref.PMTSection) *c06Want {
